@@ -13,6 +13,8 @@
 //! (+k under a delay), every `next` pulls each source once except under a delay still silent.
 #[path = "../util.rs"]
 mod util;
+#[path = "../typed.rs"]
+mod typed;
 use dasp_frame::Frame;
 use dasp_signal::{self as signal, Signal};
 use std::cell::{Cell, RefCell};
@@ -991,6 +993,12 @@ fn main() {
     run_stream::<[u32; 2]>(&mut st, &stream, &mut rng, n / 2, w, d, None);
     run_stream::<[i64; 2]>(&mut st, &stream, &mut rng, n / 2, w, d, None);
     run_stream::<[u64; 2]>(&mut st, &stream, &mut rng, n / 2, w, d, None);
+    // call-site resolution: every adaptor method on the concrete type of every other adaptor (see typed.rs)
+    if stream == "adapt" {
+        let rounds = if t { 300 } else { 40 };
+        typed::stereo_i16::run_all(&mut st, &mut rng, rounds);
+        typed::mono_f64::run_all(&mut st, &mut rng, rounds);
+    }
     st.exhaustive = false;
     st.finish();
 }
